@@ -9,5 +9,11 @@ Scen == {[dim |-> d, neurons |-> d * nn, th |-> th, bh |-> bh, tdim |-> td, m |-
           history |-> <<1, 0, 0, 2, 0, 3, 0>>, bk |-> bk] :
             d \in 1..2, nn \in 1..3, th \in {<<2>>, <<3, 2>>}, bh \in {<<2>>, <<2, 3>>}, td \in 1..2,
             bk \in {"fc", "conv"}}          \* branch architecture: fully connected, or a 1-D convolution followed by FC layers
-ASSUME ndJsonSerialize(IOEnv.OUT_FILE, SetToSeq(Scen)) /\ PrintT(<<"SCENARIOS", Cardinality(Scen)>>)
+\* input functions with TWO components, discretised at as many points as they have components (m = 2) or at more (m = 3)
+Scen2 == {[dim |-> 1, neurons |-> 2, th |-> <<2>>, bh |-> bh, tdim |-> td, m |-> m, batches |-> Batches,
+           history |-> <<1, 0, 0, 2, 0, 3, 0>>, bk |-> bk, fdim |-> 2] : bh \in {<<2>>, <<2, 3>>}, td \in 1..2, m \in 2..3, bk \in {"fc", "conv"}}
+\* one wide network (256 neurons) that is also evaluated on 2 functions x 8300 locations
+Scen3 == {[dim |-> 1, neurons |-> 256, th |-> <<2>>, bh |-> <<2>>, tdim |-> 1, m |-> 3, batches |-> Batches,
+           history |-> <<1, 0, 0, 2, 0, 3, 0>>, bk |-> "fc", big |-> TRUE]}
+ASSUME ndJsonSerialize(IOEnv.OUT_FILE, SetToSeq(Scen \cup Scen2 \cup Scen3)) /\ PrintT(<<"SCENARIOS", Cardinality(Scen \cup Scen2 \cup Scen3)>>)
 ==========================================================================
